@@ -462,6 +462,27 @@ class RejectMachine(Machine):
                   ("R9", {"call": "HistContainer(unsorted edges)"}, lambda: K.HistContainer(bin_edges=[0.0, 2.0, 1.0]))]
         for kind, f, call in trials:
             self.reject(res, kind, f, call, 0)
+        # R7 for EVERY reserved name of the fit class, the model function given as a plain function and as a model-function object
+        t = spec["type"]
+        cls = {"xy": K.XYFit, "indexed": K.IndexedFit, "hist": K.HistFit, "unbinned": K.UnbinnedFit}[t]
+        wrap = {"xy": importlib.import_module("kafe2.fit._base").ModelFunctionBase, "indexed": importlib.import_module("kafe2.fit.indexed").IndexedModelFunction,
+                "hist": importlib.import_module("kafe2.fit.histogram").HistModelFunction, "unbinned": importlib.import_module("kafe2.fit._base").ModelFunctionBase}[t]
+        data = {"xy": lambda: [[1.0, 2.0, 3.0], [1.0, 2.0, 3.2]], "indexed": lambda: [1.0, 2.0, 3.0],
+                "hist": lambda: K.HistContainer(3, (-1.0, 1.0), fill_data=[0.1, 0.2, -0.3, 0.5]), "unbinned": lambda: [0.1, 0.2, -0.3]}[t]
+        for nm in sorted(cls.RESERVED_NODE_NAMES):
+            if not nm.isidentifier():
+                continue
+            ns = {"np": np}
+            if t == "xy":
+                src = "def f(x, %s=1.0, b=1.0):\n    return %s * x + b\n" % (nm, nm)
+            elif t == "indexed":
+                src = "def f(%s=1.0, b=1.0):\n    return np.array([%s, b, %s + b])\n" % (nm, nm, nm)
+            else:
+                src = "def f(x, %s=0.1, b=1.0):\n    return np.exp(-0.5 * ((x - %s) / b) ** 2) / np.sqrt(2.0 * np.pi * b ** 2)\n" % (nm, nm)
+            exec(src, ns)
+            f = ns["f"]
+            self.reject(res, "R7", {"call": "%s(model function with parameter %s)" % (cls.__name__, nm)}, lambda: cls(data(), f), 0)
+            self.reject(res, "R7", {"call": "%s(model function OBJECT with parameter %s)" % (cls.__name__, nm)}, lambda: cls(data(), wrap(f)), 0)
 
     def run_one(self, host, ops, world, res, log):
         if host == "fit":
